@@ -70,6 +70,60 @@ Proof.
   intros Hb He. apply dry_shows_built; [exact Hb|]. unfold builds. rewrite He. reflexivity.
 Qed.
 
+(* every step only appends to the log *)
+Definition ext (s s' : rst) : Prop := exists l, r_log s' = r_log s ++ l.
+Lemma ext_refl : forall s, ext s s. Proof. intro s. exists []. symmetry. apply app_nil_r. Qed.
+Lemma ext_trans : forall a b c, ext a b -> ext b c -> ext a c.
+Proof. intros a b c [l E] [l' E']. exists (l ++ l'). rewrite E', E, app_assoc. reflexivity. Qed.
+Lemma ext_same_log : forall s s', r_log s' = r_log s -> ext s s'.
+Proof. intros s s' E. exists []. rewrite E. symmetry. apply app_nil_r. Qed.
+Lemma ext_call : forall e s, ext s (fst (call e s)).
+Proof. intros e s. exists [e]. reflexivity. Qed.
+Lemma ext_send : forall q s, ext s (send q s).
+Proof.
+  intros q s. unfold send. pose proof (ext_call (EStmt q (r_sql s) (r_vars s)) s) as E.
+  destruct (call (EStmt q (r_sql s) (r_vars s)) s) as [s1 d]. cbn [fst] in E.
+  destruct (d_err d); (eapply ext_trans; [exact E | apply ext_same_log; reflexivity]).
+Qed.
+Lemma ext_begin : forall c s, ext s (begin_cb c s).
+Proof.
+  intros c s. unfold begin_cb. destruct (negb (c_skip c) && negb (r_err s)); [|apply ext_refl].
+  pose proof (ext_call EBegin s) as E. destruct (call EBegin s) as [s1 d]. cbn [fst] in E.
+  destruct (d_err d); (eapply ext_trans; [exact E | apply ext_same_log; reflexivity]).
+Qed.
+Lemma ext_commit : forall c s, ext s (commit_cb c s).
+Proof.
+  intros c s. unfold commit_cb. destruct (negb (c_skip c) && r_started s); [|apply ext_refl].
+  eapply ext_trans; [apply ext_call | apply ext_same_log; reflexivity].
+Qed.
+Lemma ext_set_stmt : forall b s, ext s (set_stmt b s).
+Proof. intros. apply ext_same_log. reflexivity. Qed.
+Lemma ext_main : forall c k b s, ext s (main_cb c k b s).
+Proof.
+  intros c k b s. unfold main_cb. cbv zeta.
+  destruct k; destruct (sql_empty s); destruct (b_empty b); cbn [andb];
+    repeat match goal with |- ext _ (if ?x then _ else _) => destruct x end;
+    first [apply ext_refl | apply ext_set_stmt | apply ext_send
+          | eapply ext_trans; [apply ext_set_stmt | apply ext_send]].
+Qed.
+Lemma ext_execute : forall c k b s, ext s (execute c k b s).
+Proof.
+  intros c k b s. unfold execute.
+  assert (E : ext s (if has_tx_callbacks k
+                     then commit_cb c (main_cb c k b (if has_tx_callbacks k then begin_cb c s else s))
+                     else main_cb c k b (if has_tx_callbacks k then begin_cb c s else s))).
+  { destruct (has_tx_callbacks k).
+    - eapply ext_trans; [apply ext_begin|]. eapply ext_trans; [apply ext_main | apply ext_commit].
+    - apply ext_main. }
+  destruct (c_dry c); [exact E | eapply ext_trans; [exact E | apply ext_same_log; reflexivity]].
+Qed.
+
+Lemma first_stmt_app : forall l l' x, first_stmt l = Some x -> first_stmt (l ++ l') = Some x.
+Proof.
+  induction l as [|e l IH]; intros l' x H; [discriminate|].
+  destruct e; cbn in *; auto.
+Qed.
+
 Lemma save_real_first : forall skip bu bc orc,
   begin_ok skip orc = true -> b_empty bu = false -> b_err bu = false ->
   first_stmt (r_log (save (real_cfg skip) bu bc (rst0 orc))) = Some (b_sql bu, b_vars bu).
@@ -79,16 +133,6 @@ Proof.
   specialize (F eq_refl Hr).
   destruct (negb (r_err (execute (real_cfg skip) OpUpdate bu (rst0 orc))) &&
             (r_ra (execute (real_cfg skip) OpUpdate bu (rst0 orc)) =? 0)%Z && negb (c_dry (real_cfg skip))); [|exact F].
-  (* the second Execute appends to a log that already contains the update *)
-  remember (execute (real_cfg skip) OpUpdate bu (rst0 orc)) as s1.
-  assert (G : forall c k b s, exists l, r_log (execute c k b s) = r_log s ++ l).
-  { intros [[] []] k b s; destruct k; unfold execute, has_tx_callbacks, begin_cb, commit_cb, main_cb, send, call,
-      set_err, set_started, set_stmt, set_ra, clear_stmt, sql_empty; cbn;
-      repeat match goal with
-             | |- context [if ?x then _ else _] => destruct x; cbn
-             | |- context [let (_, _) := ?x in _] => destruct x; cbn
-             end; rewrite <- ?app_assoc; eauto; exists []; rewrite app_nil_r; reflexivity. }
-  destruct (G (real_cfg skip) OpCreate bc (clear_stmt s1)) as [l E]. rewrite E. cbn [clear_stmt r_log].
-  clear -F. revert F. generalize (r_log s1). intros lg. induction lg as [|e lg IH]; cbn; [discriminate|].
-  destruct e; auto.
+  destruct (ext_execute (real_cfg skip) OpCreate bc (clear_stmt (execute (real_cfg skip) OpUpdate bu (rst0 orc)))) as [l E].
+  rewrite E. cbn [clear_stmt r_log]. apply first_stmt_app. exact F.
 Qed.
